@@ -309,7 +309,8 @@ ByteArray decodeBase64(const char* src0, int n)
 	byte* dest = result.data();
 	byte k[4];
 	int i = 0;
-	while (*src) {
+	const byte* end = src + len;
+	while (src < end && *src) {
 		if (myisspace(*src)) { src++; continue; };
 		byte b = base64_chars_inv[*src++];
 		k[i++] = b;
